@@ -61,7 +61,7 @@ func init() {
 	register(func() {
 		engine.Register(&engine.Check{
 			ID: "C16", Level: "fault_enumeration",
-			Rule: "fault enumeration: (a) for every event stream of the C01 language (trees, scalars, strings, lengths, extended events) x 3 encoders a dry run counts the W writes, then for EVERY k < W the k-th and all later writes fail; the event sequence must report an error no later than its last event; (b) for every document of the three wire languages x {Parse, ParseReader, Write in single bytes}, for Fold of a set of Go values, and for the extended-event adapters, a dry run counts the E events, then for EVERY k < E the visitor fails at event k; the outermost call must return exactly the injected error and deliver no further event; a case = (producer/consumer, input, k), distinct by that triple; non-trivial = k > 0 (the fault is not at the very first step)",
+			Rule:        "fault enumeration: (a) for every event stream of the C01 language (trees, scalars, strings, lengths, extended events) x 3 encoders a dry run counts the W writes, then for EVERY k < W the k-th and all later writes fail; the event sequence must report an error no later than its last event; (b) for every document of the three wire languages x {Parse, ParseReader, Write in single bytes}, for Fold of a set of Go values, and for the extended-event adapters, a dry run counts the E events, then for EVERY k < E the visitor fails at event k; the outermost call must return exactly the injected error and deliver no further event; a case = (producer/consumer, input, k), distinct by that triple; non-trivial = k > 0 (the fault is not at the very first step)",
 			Assumptions: []string{"the failing writer keeps failing (as the property states)", "Fold is exercised on a fixed set of Go values here; the type space is C09/C12's"},
 			Families:    c16Families,
 			Require:     []string{"write_faults", "visitor_faults"},
